@@ -263,6 +263,9 @@ NOTIFY_ROWS = [
          notify=m(r"notify_senders"), may={}, why="mpsc bounded: published consumer progress must be followed by notify_senders"),
     dict(id="spmc-consumer-tail", scope=r"^fibre::spmc::ring_buffer::try_recv(_batch)?_internal$", publish=atomic_store_on(r"^consumer_tail_idx$"), label=None,
          notify=m(r"wake_producer"), may={}, why="spmc: advancing a consumer cursor frees space; wake_producer must follow"),
+    dict(id="spmc-receiver-detach", scope=r"^fibre::spmc::ring_buffer::drop_receiver_internal$", publish=m(r"modify", path=r"tails_writer$"), label=None,
+         notify=m(r"wake_producer"), may={},
+         why="spmc: removing a receiver's cursor from the tails list can raise the minimum tail (space appears) or disconnect the channel; wake_producer must follow on every path"),
     dict(id="spmc-producer-head", scope=r"^fibre::spmc::ring_buffer::SpmcShared::<T>::(try_send_internal|write_batch_unchecked)$", publish=atomic_store_on(r"^self\.head$"), label=None,
          notify=m(r"drain", callee="Vec::<core::task::wake::Waker>"),
          may={r"::write_batch_unchecked$": "drains the waker list of each written slot in a loop over 0..written; zero iterations only when nothing was published"},
